@@ -80,6 +80,7 @@ fn main() {
                 "roundtrip" => scen_parse::run_rt(seed, tier, &mut out),
                 "loops" => scen_loops::run(seed, tier, &mut out),
                 "run" => scen_prog::run_runs(seed, tier, &mut out),
+                "growth" => scen_prog::run_growth(seed, tier, &mut out),
                 "buf" => scen_buf::run(seed, tier, &mut out),
                 "buf-exh" => {
                     if tier == "thorough" {
